@@ -279,3 +279,54 @@ sub("storage_backend.py",
         def list_op() -> List[str]:
 """)
 print("applied")
+
+# ---- added after D13-D15 / D7c were found ----
+# D13: pointer parser total
+sub("metadata_manager.py",
+"""        if text.isdigit():
+            # Legacy format""",
+"""        if text.isascii() and text.isdigit():
+            # (isascii: str.isdigit() accepts characters such as '\\u00b2' that int() rejects)
+            # Legacy format""")
+# D14: GC normalisation depends on the path only
+sub("garbage_collector.py",
+"""        if path.startswith(self.table_path):
+            path = path[len(self.table_path):]
+        return path.lstrip("/")
+""",
+"""        # Manifest / marker / listing paths are table-relative everywhere (#47);
+        # stripping the table LOCATION as a string prefix cannot tell the location
+        # '/data' from the entry '/data/x.parquet' and made the two spellings of
+        # one file normalise differently.
+        return path.lstrip("/")
+""")
+# D15: delete filter normalises both sides
+sub("transaction.py",
+"""                surviving_files = [
+                    f for f in data_files
+                    if f.file_path not in deleted_paths
+                    and f.file_path.lstrip("/") not in deleted_paths
+                ]
+""",
+"""                deleted_normalized = {p.lstrip("/") for p in deleted_paths}
+                surviving_files = [
+                    f for f in data_files
+                    if f.file_path.lstrip("/") not in deleted_normalized
+                ]
+""")
+# D7c: losing initializer removes its own v0 file
+sub("metadata_manager.py",
+"""                    except CASConflictError as e:
+                        raise TableExistsError(
+""",
+"""                    except CASConflictError as e:
+                        try:
+                            self.storage.delete_file(metadata_path)
+                        except Exception as cleanup_error:
+                            logger.warning(
+                                f"Could not remove losing initial metadata {metadata_path}: "
+                                f"{cleanup_error}"
+                            )
+                        raise TableExistsError(
+""")
+print("applied D13-D15, D7c")
